@@ -601,7 +601,9 @@ def s9_local_backend_order(ctx, rep, clause="S3"):
     then written everything it will ever write, so 'completed' is never delivered with the tail of the reports missing (the tuner
     does not poll a finished trial again)."""
     from .common import out_of_order, node_calls
-    f = ctx.P.method("LocalBackend", "_all_trial_results")
+    from .common import body_owner
+    f = body_owner(ctx, ctx.P.method("LocalBackend", "_all_trial_results"),
+                   lambda m: any(isinstance(x, ast.Call) and fn_name(x) == "retrieve" for x in walk_shallow(m.node)))
     bad, firsts, thens = out_of_order(ctx, f, node_calls("_read_status"), node_calls("retrieve"))
     if not firsts or not thens:
         raise AnchorError("LocalBackend._all_trial_results: _read_status / retrieve(...) not found")
